@@ -54,7 +54,7 @@ def has_nan(v):
     if isinstance(v, float):
         return math.isnan(v)
     if isinstance(v, Zoo):
-        return v.name in ("nan", "decimal_nan")
+        return v.name in ("nan", "decimal_nan", "dict_twin_nan_keys")
     if isinstance(v, (list, tuple)):
         return any(has_nan(x) for x in v)
     if isinstance(v, dict):
@@ -69,6 +69,7 @@ HOSTILE_KINDS = PLAIN_KINDS + ["zoo", "zoo", "ellipsis", "junk"]
 @st.composite
 def subst_case(draw, kinds=PLAIN_KINDS, sat=True, depth_choices=(0, 1, 1, 2, 2, 3), dict_bias=0):
     depth = draw(st.sampled_from(list(depth_choices)))
+    any_of_relaxed = False
     if dict_bias and draw(st.integers(0, 9)) < dict_bias:
         # a declared dict (possibly inside a typed list): the shape partial substitution is about
         opts = dict(alias=True, patterns=True, custom=False, derived=False)
@@ -78,22 +79,28 @@ def subst_case(draw, kinds=PLAIN_KINDS, sat=True, depth_choices=(0, 1, 1, 2, 2, 
                                     "spec": draw(specs.spec_strategy(depth=0, sat=True))})
         if draw(st.integers(0, 3)) == 0:
             spec = {"t": "list", "form": "typed", "elem": spec}
-    elif "zoo" in kinds and draw(st.integers(0, 11)) == 0:
+    elif draw(st.integers(0, 11)) == 0:
         # an any-union whose alternatives accept the value but cannot take it: relaxed dict + extra key,
         # untyped dict / list + a member that cannot be converted
         member = draw(specs.spec_strategy(depth=0, sat=True))
         alts = draw(st.lists(st.sampled_from([
             {"t": "dict", "entries": [{"key": "a", "opt": False, "spec": member}], "relaxed": True},
+            {"t": "dict", "entries": [{"key": "a", "opt": False, "spec": member},
+                                      {"key": "name", "opt": False, "spec": {"t": "str"}}], "relaxed": True},
+            {"t": "none"},
             {"t": "dict"}, {"t": "list", "form": "untyped"}, {"t": "list", "form": "ellipsis", "elems": []},
             {"t": "dict", "entries": [{"key": "a", "opt": True, "spec": member}], "relaxed": True, "relaxed_at": 0},
         ]), min_size=1, max_size=3))
         spec = {"t": "any", "alts": alts}
         if draw(st.booleans()):
             spec = {"t": "dict", "entries": [{"key": "payload", "opt": False, "spec": spec}], "relaxed": False}
+        any_of_relaxed = True
     else:
         spec = draw(specs.spec_strategy(depth=depth,
                                         sat=sat if isinstance(sat, bool) else draw(st.booleans())))
     kind = draw(st.sampled_from(kinds))
+    if any_of_relaxed and draw(st.booleans()):
+        kind = "extra-keys-sparse"      # an unknown key added and declared keys left out
     full = None
     try:
         full = draw(values.conforming(spec))
@@ -107,6 +114,8 @@ def subst_case(draw, kinds=PLAIN_KINDS, sat=True, depth_choices=(0, 1, 1, 2, 2, 
             v, _ = draw(values.perturb(full))
         elif kind == "extra-keys":
             v = add_extra_keys(draw, project(draw, full, p=6), draw(st.integers(1, 2)))
+        elif kind == "extra-keys-sparse":
+            v = add_extra_keys(draw, project(draw, full, p=1), 1)
         elif kind == "zoo":
             v, _ = draw(values.inject(full))
         elif kind == "ellipsis":
